@@ -61,7 +61,7 @@ def check_statics(run, F, T=None):
             # a reviewed static is recognised by what it is - its name, its type and its initialiser - not by the function it happens to be declared in
             rev = None
             for rp, spec in T["reviewed_statics"].items():
-                if isinstance(spec, dict) and cpath.split("::")[-1] == spec["name"] and c["ty"] == spec["ty"]:
+                if isinstance(spec, dict) and c["ty"] == spec["ty"]:        # (whatever it is called and wherever it is declared)
                     ib = F.hir.get(cpath)
                     if ib is not None:
                         cs_ = {callee(x) for x in walk(ib["body"]) if callee(x)}
